@@ -70,7 +70,7 @@ std::string case_to_json(const Case &c) {
         tasks.push_back(tj);
     }
     j["tasks"] = tasks;
-    j["sched"] = {{"mode", c.sched_mode}, {"seed", c.sched_seed}, {"w_fine", c.w_fine}, {"w_mid", c.w_mid}, {"w_coarse", c.w_coarse}, {"pct_d", c.pct_d}};
+    j["sched"] = {{"mode", c.sched_mode}, {"seed", c.sched_seed}, {"w_fine", c.w_fine}, {"w_mid", c.w_mid}, {"w_coarse", c.w_coarse}, {"pct_d", c.pct_d}, {"pct_span", c.pct_span}};
     if (!c.schedule.empty()) { json s = json::array(); for (auto &r : c.schedule) s.push_back({(uint64_t)r.task, r.edges, (uint64_t)r.kind}); j["schedule"] = s; }
     if (!c.envs.empty()) {
         json es = json::array();
@@ -95,7 +95,7 @@ bool case_from_json(const std::string &text, Case &c, std::string &err) {
             for (auto &o : tj.at("ops")) t.ops.push_back(op_u(o));
             c.tasks.push_back(std::move(t));
         }
-        if (j.contains("sched")) { auto &s = j["sched"]; c.sched_mode = s.value("mode", 0); c.sched_seed = s.value("seed", (uint64_t)0); c.w_fine = s.value("w_fine", 0.25); c.w_mid = s.value("w_mid", 0.25); c.w_coarse = s.value("w_coarse", 0.25); c.pct_d = s.value("pct_d", 2); }
+        if (j.contains("sched")) { auto &s = j["sched"]; c.sched_mode = s.value("mode", 0); c.sched_seed = s.value("seed", (uint64_t)0); c.w_fine = s.value("w_fine", 0.25); c.w_mid = s.value("w_mid", 0.25); c.w_coarse = s.value("w_coarse", 0.25); c.pct_d = s.value("pct_d", 2); c.pct_span = s.value("pct_span", (uint64_t)200000); }
         if (j.contains("schedule")) for (auto &r : j["schedule"]) c.schedule.push_back({r[0].get<int>(), r[1].get<uint64_t>(), r.size() > 2 ? r[2].get<int>() : 0});
         if (j.contains("envs")) for (auto &e : j["envs"]) {
             EnvSpec s; s.lwork = e.value("lwork", 0L); s.align = e.value("align", 0); s.fill = e.value("fill", -1); s.garbage = e.value("garbage", 0); s.wsgarbage = e.value("wsgarbage", 0);
